@@ -13,6 +13,8 @@
 (*   <<"r", name>>     regular expression literal, one of a few named patterns            *)
 (*   <<"m">>           the missing value (reference to a field/tag the point lacks)       *)
 (*   <<"E">>           an evaluation error                                                *)
+(*   <<"!", t>>        some value of type t - NOT an error - whose magnitude the finite   *)
+(*                     model does not decide (float("0.1"), float("inf"), int("4294967296")) *)
 (*   <<"?", t>>        some value of type t the finite model does not decide (inexact     *)
 (*                     float quotient, Inf/NaN, sigma, ...): any value of type t, or an    *)
 (*                     error, is accepted for it and it taints what is computed from it.  *)
@@ -25,9 +27,10 @@ EXTENDS Integers, Sequences, FiniteSets, TLC
 
 Err == <<"E">>
 IsErr(v) == v[1] = "E"
-IsAny(v) == v[1] = "?"
-Tag(v) == IF v[1] = "?" THEN v[2] ELSE v[1]
+IsAny(v) == v[1] \in {"?", "!"}
+Tag(v) == IF IsAny(v) THEN v[2] ELSE v[1]
 AnyOf(t) == <<"?", t>>
+NonErr(t) == <<"!", t>>
 MkI(n) == <<"i", n>>
 MkB(b) == <<"b", b>>
 MkS(s) == <<"s", s>>
@@ -58,7 +61,8 @@ Den(v) == IF v[1] = "i" THEN 1 ELSE v[3]
 FNeg(a) == <<"f", -a[2], a[3]>>
 FAbs(a) == <<"f", Abs(a[2]), a[3]>>
 (* sign of a - b for ints and floats alike (an int compared with a float is converted exactly) *)
-NumCmp(a, b) == LET x == Num(a) * Den(b) - Num(b) * Den(a) IN IF x < 0 THEN -1 ELSE IF x > 0 THEN 1 ELSE 0
+NumCmp(a, b) == LET x == IF Den(a) = Den(b) THEN Num(a) - Num(b) ELSE Num(a) * Den(b) - Num(b) * Den(a)
+                IN IF x < 0 THEN -1 ELSE IF x > 0 THEN 1 ELSE 0
 FFloor(a) == a[2] \div a[3]                        \* TLA+ \div floors
 FTrunc(a) == TDiv(a[2], a[3])
 
@@ -112,6 +116,7 @@ FloatToStr(a) ==   \* strconv.FormatFloat(a, 'f', -1, 64) for halves and quarter
          [] a[3] = 1 -> MkS(sgn \o ip)
          [] a[3] = 2 -> MkS(sgn \o ip \o <<46, 53>>)
          [] a[3] = 4 -> MkS(sgn \o ip \o (IF r = 1 THEN <<46, 50, 53>> ELSE <<46, 55, 53>>))
+         [] a[3] = 8 -> MkS(sgn \o ip \o <<46>> \o Digits(r * 125))               \* .125 .375 .625 .875
          [] OTHER -> AnyOf("s")
 DurToStr(ms) ==    \* influxql.FormatDuration: the largest unit that divides the value
     IF ms = 0 THEN <<48, 115>>
@@ -121,6 +126,127 @@ DurToStr(ms) ==    \* influxql.FormatDuration: the largest unit that divides the
     ELSE IF ms % 60000 = 0 THEN IntToStr(ms \div 60000) \o <<109>>
     ELSE IF ms % 1000 = 0 THEN IntToStr(ms \div 1000) \o <<115>>
     ELSE IntToStr(ms) \o <<109, 115>>
+
+(* ---------------- the string grammars of the conversion functions (as HEAD has them) ---------------- *)
+Lc(c) == IF c >= 65 /\ c <= 90 THEN c + 32 ELSE c
+StripSign(s) == IF s # <<>> /\ s[1] \in {43, 45} THEN Tail(s) ELSE s
+IsNeg(s) == s # <<>> /\ s[1] = 45
+RECURSIVE StripZeros(_)
+StripZeros(s) == IF Len(s) > 1 /\ s[1] = 48 THEN StripZeros(Tail(s)) ELSE s          \* keeps the last digit
+RECURSIVE Pow(_, _)
+Pow(b, k) == IF k = 0 THEN 1 ELSE b * Pow(b, k - 1)
+MaxInt64Digits == <<57, 50, 50, 51, 51, 55, 50, 48, 51, 54, 56, 53, 52, 55, 55, 53, 56, 48, 55>>    \* 9223372036854775807
+MinInt64Digits == <<57, 50, 50, 51, 51, 55, 50, 48, 51, 54, 56, 53, 52, 55, 55, 53, 56, 48, 56>>    \* 9223372036854775808
+(* int(string) = strconv.ParseInt(s, 10, 64): an optional sign and decimal digits, nothing else - no base prefix  *)
+(* (0x 0b 0o, a leading 0 is decimal), no underscores, no blanks, no exponent or fraction; out of int64 range is   *)
+(* an error.  Numbers of more than 9 digits are outside the model's exact integers: some integer, not an error.   *)
+ParseIntDec(s) ==
+    LET d == StripSign(s) IN
+    IF ~AllDigits(d) THEN Err
+    ELSE LET z == StripZeros(d)  k == Len(z) IN
+         IF k <= 9 THEN MkI(IF IsNeg(s) THEN -DigitsVal(z, 0) ELSE DigitsVal(z, 0))
+         ELSE IF k > 19 \/ (k = 19 /\ SeqCmp(z, IF IsNeg(s) THEN MinInt64Digits ELSE MaxInt64Digits) > 0) THEN Err
+         ELSE NonErr("i")
+(* Underscores (strconv's underscoreOK): only between digits, or between a base prefix and a digit. *)
+UnderscoreOK(s) ==
+    LET r == StripSign(s)
+        pre == Len(r) >= 2 /\ r[1] = 48 /\ Lc(r[2]) \in {98, 111, 120}
+        hex == pre /\ Lc(r[2]) = 120
+        b == IF pre THEN SubSeq(r, 3, Len(r)) ELSE r
+        dig(c) == IsDigit(c) \/ (hex /\ Lc(c) >= 97 /\ Lc(c) <= 102)
+    IN \A i \in DOMAIN b : b[i] = 95 =>
+            /\ (IF i = 1 THEN pre ELSE dig(b[i - 1]))
+            /\ i < Len(b) /\ dig(b[i + 1])
+NotUnderscore(c) == c # 95
+IsHexDigit(c) == IsDigit(c) \/ (Lc(c) >= 97 /\ Lc(c) <= 102)
+RECURSIVE HexVal(_, _)
+HexVal(s, acc) == IF s = <<>> THEN acc ELSE HexVal(Tail(s), acc * 16 + (IF IsDigit(s[1]) THEN s[1] - 48 ELSE Lc(s[1]) - 87))
+SignF(neg, f) == IF neg THEN FNeg(f) ELSE f
+(* mantissa "digits[.digits]" split at the first dot: <<ok, integer part, fraction part>> *)
+SplitMant(m, isdig(_)) ==
+    LET dots == { i \in DOMAIN m : m[i] = 46 }
+        ip == IF dots = {} THEN m ELSE SubSeq(m, 1, Min(dots) - 1)
+        fp == IF dots = {} THEN <<>> ELSE SubSeq(m, Min(dots) + 1, Len(m))
+    IN <<Cardinality(dots) <= 1 /\ ip \o fp # <<>> /\ \A i \in DOMAIN (ip \o fp) : isdig((ip \o fp)[i]), ip, fp>>
+(* exponent "[+-]digits": <<ok, value capped at +-99999>> *)
+ExpVal(ex) == LET z == StripZeros(StripSign(ex)) IN
+              IF Len(z) > 4 THEN (IF IsNeg(ex) THEN -99999 ELSE 99999)
+              ELSE IF IsNeg(ex) THEN -DigitsVal(z, 0) ELSE DigitsVal(z, 0)
+DecFloat(c, neg) ==           \* digits[.digits][(e|E)[+-]digits] | .digits[...]
+    LET es == { i \in DOMAIN c : Lc(c[i]) = 101 }
+        hasE == es # {}
+        mant == IF hasE THEN SubSeq(c, 1, Min(es) - 1) ELSE c
+        ex == IF hasE THEN SubSeq(c, Min(es) + 1, Len(c)) ELSE <<>>
+        sm == SplitMant(mant, IsDigit)
+    IN IF ~sm[1] \/ (hasE /\ ~IsSignedInt(ex)) THEN Err
+       ELSE LET z == StripZeros(sm[2] \o sm[3])
+                scale == (IF hasE THEN ExpVal(ex) ELSE 0) - Len(sm[3])
+                mag == Len(z) + scale                      \* the value is in [10^(mag-1), 10^mag)
+            IN IF z = <<48>> THEN <<"f", 0, 1>>
+               ELSE IF mag > 309 THEN Err                   \* beyond the largest float64: an error (ErrRange)
+               ELSE IF mag = 309 THEN AnyOf("f")
+               ELSE IF Len(z) > 9 \/ mag > 9 \/ scale < -9 THEN NonErr("f")        \* (underflow gives 0 or a denormal, no error)
+               ELSE IF scale >= 0 THEN SignF(neg, <<"f", DigitsVal(z, 0) * Pow(10, scale), 1>>)
+               ELSE LET q == MkF(DigitsVal(z, 0), Pow(10, -scale)) IN
+                    IF IsPow2(q[3]) THEN SignF(neg, q) ELSE NonErr("f")
+HexFloat(h, neg) ==           \* after 0x: hexdigits[.hexdigits](p|P)[+-]digits, the exponent is mandatory
+    LET ps == { i \in DOMAIN h : Lc(h[i]) = 112 }
+        mant == IF ps = {} THEN h ELSE SubSeq(h, 1, Min(ps) - 1)
+        ex == IF ps = {} THEN <<>> ELSE SubSeq(h, Min(ps) + 1, Len(h))
+        sm == SplitMant(mant, IsHexDigit)
+    IN IF ps = {} \/ ~sm[1] \/ ~IsSignedInt(ex) THEN Err
+       ELSE LET z == StripZeros(sm[2] \o sm[3])
+                shift == ExpVal(ex) - 4 * Len(sm[3])
+                mag == 4 * Len(z) + shift                   \* the value is below 2^mag and at least 2^(mag-4)
+            IN IF z = <<48>> THEN <<"f", 0, 1>>
+               ELSE IF mag > 1028 THEN Err
+               ELSE IF mag > 1020 THEN AnyOf("f")
+               ELSE IF Len(z) > 6 \/ mag > 29 \/ shift < -29 THEN NonErr("f")
+               ELSE IF shift >= 0 THEN SignF(neg, <<"f", HexVal(z, 0) * Pow(2, shift), 1>>)
+               ELSE SignF(neg, MkF(HexVal(z, 0), Pow(2, -shift)))
+(* float(string) = strconv.ParseFloat(s, 64): Go's floating-point literal syntax - decimal with optional fraction   *)
+(* and exponent, hexadecimal with a mandatory p exponent, underscores between digits, [+-]inf/infinity and nan in   *)
+(* any case; no blanks; a value beyond the float64 range is an error, underflow is not.                             *)
+StrInf == { <<105, 110, 102>>, <<105, 110, 102, 105, 110, 105, 116, 121>> }
+ParseFloatStr(s) ==
+    LET r == StripSign(s) IN
+    IF (<<>> \o Lower(r)) \in StrInf \/ (<<>> \o Lower(s)) = <<110, 97, 110>> THEN NonErr("f")
+    ELSE IF ~UnderscoreOK(s) THEN Err
+    ELSE LET c == SelectSeq(r, NotUnderscore) IN
+         IF Len(c) >= 2 /\ c[1] = 48 /\ Lc(c[2]) = 120 THEN HexFloat(SubSeq(c, 3, Len(c)), IsNeg(s))
+         ELSE DecFloat(c, IsNeg(s))
+(* duration(string, unit) = influxql.ParseDuration(s): [-] then one or more <decimal digits><unit> with the units  *)
+(* ns u µ ms s m h d w, at least two characters, no blanks, no plus sign, no fraction; the unit argument is not    *)
+(* used.  Result in ms: <<ok, ms>>, ms = -1 when a term is below a millisecond or beyond the model's integers.     *)
+UnitMs(u) == CASE u = <<109, 115>> -> 1 [] u = <<115>> -> 1000 [] u = <<109>> -> 60000 [] u = <<104>> -> 3600000
+               [] u = <<100>> -> 86400000 [] u = <<119>> -> 604800000 [] OTHER -> 0       \* ns, u, µ: below a ms
+Small == 1073741824            \* the exact integers of the model (and of the driver's encoding) are below 2^30
+RECURSIVE DurTerms(_, _, _, _)
+DurTerms(s, acc, exact, first) ==   \* <<"ok" | "bad" (syntax) | "large" (one term beyond the model, no overflow) | "big" (may overflow), ms, exact>>
+    IF s = <<>> THEN <<"ok", acc, exact>>
+    ELSE LET nd == IF \E i \in DOMAIN s : ~IsDigit(s[i]) THEN Min({ i \in DOMAIN s : ~IsDigit(s[i]) }) - 1 ELSE Len(s)
+             rest == SubSeq(s, nd + 1, Len(s))
+             two == IF Len(rest) >= 2 THEN SubSeq(rest, 1, 2) ELSE <<>>
+             u == IF two \in { <<109, 115>>, <<110, 115>>, <<194, 181>> } THEN two
+                  ELSE IF rest # <<>> /\ rest[1] \in {117, 115, 109, 104, 100, 119} THEN <<rest[1]>> ELSE <<>>
+             z == StripZeros(SubSeq(s, 1, nd))
+             after == SubSeq(rest, Len(u) + 1, Len(rest))
+         IN IF nd = 0 \/ u = <<>> THEN <<"bad", 0, FALSE>>
+            ELSE IF Len(z) > 19 \/ (Len(z) = 19 /\ SeqCmp(z, MaxInt64Digits) > 0) THEN <<"bad", 0, FALSE>>     \* ParseInt of the digits fails
+            ELSE IF Len(z) > 4 THEN (IF DurTerms(after, 0, FALSE, FALSE)[1] = "bad" THEN <<"bad", 0, FALSE>> ELSE <<"big", 0, FALSE>>)
+            ELSE LET n == DigitsVal(z, 0)  ms == UnitMs(u) IN
+                 IF ms # 0 /\ (n > (Small - 1) \div ms \/ acc + n * ms >= Small)
+                 THEN (IF DurTerms(after, 0, FALSE, FALSE)[1] = "bad" THEN <<"bad", 0, FALSE>>
+                       ELSE IF first /\ after = <<>> THEN <<"large", 0, FALSE>> ELSE <<"big", 0, FALSE>>)
+                 ELSE DurTerms(after, acc + n * ms, exact /\ (ms # 0 \/ n = 0), FALSE)
+ParseDurStr(s) ==
+    LET b == IF IsNeg(s) THEN Tail(s) ELSE s
+        t == DurTerms(b, 0, TRUE, TRUE)
+    IN IF Len(s) < 2 \/ b = <<>> \/ t[1] = "bad" THEN Err
+       ELSE IF t[1] = "big" THEN AnyOf("d")                   \* may overflow the int64 nanoseconds: an error then
+       ELSE IF t[1] = "large" \/ ~t[3] THEN NonErr("d")
+       ELSE MkD(IF IsNeg(s) THEN -t[2] ELSE t[2])
+
 (* named regular expressions (regex engine semantics are out of scope; these decide typing/dispatch) *)
 RegexNames == {"a", "^a", "b$", "^$"}
 RegexMatch(name, s) ==
@@ -158,8 +284,10 @@ CmpHolds(op, c) ==
       [] op = "<=" -> c <= 0 [] op = ">" -> c > 0 [] op = ">=" -> c >= 0
 
 (* duration (ms) times/over a rational: decided when the result is a whole number of ms *)
+FSmall(a, b) == Abs(a[2]) <= 23170 /\ a[3] <= 23170 /\ Abs(b[2]) <= 23170 /\ b[3] <= 23170
+MulFits(a, b) == b = 0 \/ Abs(a) <= 1073741823 \div Abs(b)      \* the product stays inside the model's integers
 DurScale(ms, n, d) ==
-    IF d = 0 THEN AnyOf("d")
+    IF d = 0 \/ ~MulFits(ms, n) THEN AnyOf("d")
     ELSE LET x == IF d < 0 THEN -(ms * n) ELSE ms * n
              y == Abs(d)
          IN IF x % y = 0 THEN MkD(x \div y) ELSE AnyOf("d")
@@ -171,6 +299,7 @@ Bin(op, a, b) ==
         rt == BinType(op, ta, tb)
     IN IF rt = "inv" THEN Err
        ELSE IF IsAny(a) \/ IsAny(b) THEN AnyOf(rt)
+       ELSE IF ta = "f" /\ tb = "f" /\ op \in Arith /\ ~FSmall(a, b) THEN AnyOf("f")     \* beyond the model's exact rationals
        ELSE CASE op \in Logic -> MkB(IF op = "AND" THEN a[2] /\ b[2] ELSE a[2] \/ b[2])
               [] op \in {"=~", "!~"} -> MkB(RegexMatch(b[2], a[2]) = (op = "=~"))
               [] op \in EqOps \cup OrdOps ->
@@ -188,10 +317,10 @@ Bin(op, a, b) ==
                       [] ta = "f" -> MkF(a[2] * b[3] - b[2] * a[3], a[3] * b[3])
                       [] ta = "d" -> MkD(a[2] - b[2]))
               [] op = "*" ->
-                   (CASE ta = "i" /\ tb = "i" -> MkI(a[2] * b[2])
+                   (CASE ta = "i" /\ tb = "i" -> IF MulFits(a[2], b[2]) THEN MkI(a[2] * b[2]) ELSE AnyOf("i")
                       [] ta = "f" /\ tb = "f" -> MkF(a[2] * b[2], a[3] * b[3])
-                      [] ta = "d" /\ tb = "i" -> MkD(a[2] * b[2])
-                      [] ta = "i" /\ tb = "d" -> MkD(a[2] * b[2])
+                      [] ta = "d" /\ tb = "i" -> IF MulFits(a[2], b[2]) THEN MkD(a[2] * b[2]) ELSE AnyOf("d")
+                      [] ta = "i" /\ tb = "d" -> IF MulFits(a[2], b[2]) THEN MkD(a[2] * b[2]) ELSE AnyOf("d")
                       [] ta = "d" /\ tb = "f" -> DurScale(a[2], b[2], b[3])
                       [] ta = "f" /\ tb = "d" -> DurScale(b[2], a[2], a[3]))
               [] op = "/" ->
@@ -223,7 +352,7 @@ ToInt(v) ==
     CASE IsAny(v) -> AnyOf("i")
       [] v[1] = "i" -> v
       [] v[1] = "f" -> MkI(FTrunc(v))
-      [] v[1] = "s" -> IF IsSignedInt(v[2]) THEN MkI(SignedIntVal(v[2])) ELSE Err
+      [] v[1] = "s" -> ParseIntDec(v[2])
       [] v[1] = "b" -> MkI(IF v[2] THEN 1 ELSE 0)
       [] v[1] = "d" -> AnyOf("i")       \* not decided: the function converts to nanoseconds, its signature does not list durations
       [] OTHER -> Err
@@ -231,9 +360,7 @@ ToFloat(v) ==
     CASE IsAny(v) -> AnyOf("f")
       [] v[1] = "i" -> <<"f", v[2], 1>>
       [] v[1] = "f" -> v
-      [] v[1] = "s" -> IF IsSignedInt(v[2]) THEN MkF(SignedIntVal(v[2]), 1)
-                       ELSE IF \E i \in DOMAIN v[2] : IsDigit(v[2][i]) THEN AnyOf("f")   \* decimal point / exponent syntax is not modelled
-                       ELSE Err
+      [] v[1] = "s" -> ParseFloatStr(v[2])
       [] v[1] = "b" -> <<"f", IF v[2] THEN 1 ELSE 0, 1>>
       [] OTHER -> Err
 ToBool(v) ==
@@ -263,12 +390,12 @@ Pure(name, a) ==
       [] name = "string" -> IF Len(a) = 1 THEN ToStr(a[1]) ELSE Err
       [] name = "duration" ->
             IF AllTags(a, <<"d">>) THEN a[1]
-            ELSE IF AllTags(a, <<"s">>)          \* not decided (parsed by the function, not listed in its signature) unless it cannot be a duration
-                 THEN (IF ~IsAny(a[1]) /\ ~\E i \in DOMAIN a[1][2] : IsDigit(a[1][2][i]) THEN Err ELSE AnyOf("d"))
-            ELSE IF AllTags(a, <<"i", "d">>) THEN (IF SomeAny(a) THEN AnyOf("d") ELSE MkD(a[1][2] * a[2][2]))
+            ELSE IF AllTags(a, <<"s">>)          \* the function parses it but its signature does not list (string): an error, or the parsed value
+                 THEN (IF IsAny(a[1]) \/ ~IsErr(ParseDurStr(a[1][2])) THEN AnyOf("d") ELSE Err)
+            ELSE IF AllTags(a, <<"i", "d">>) THEN (IF SomeAny(a) THEN AnyOf("d") ELSE IF MulFits(a[1][2], a[2][2]) THEN MkD(a[1][2] * a[2][2]) ELSE NonErr("d"))
             ELSE IF AllTags(a, <<"f", "d">>) THEN (IF SomeAny(a) THEN AnyOf("d") ELSE DurScale(a[2][2], a[1][2], a[1][3]))
-            ELSE IF AllTags(a, <<"s", "d">>)
-                 THEN (IF ~IsAny(a[1]) /\ ~\E i \in DOMAIN a[1][2] : IsDigit(a[1][2][i]) THEN Err ELSE AnyOf("d"))
+            ELSE IF AllTags(a, <<"s", "d">>)     \* the string is parsed as a duration literal, the unit is not used
+                 THEN (IF SomeAny(a) THEN AnyOf("d") ELSE ParseDurStr(a[1][2]))
             ELSE Err
       [] name \in {"abs", "floor", "ceil"} ->
             IF ~AllTags(a, <<"f">>) THEN Err
@@ -545,6 +672,7 @@ ModeTag == [I |-> "i", F |-> "f", S |-> "s", B |-> "b", D |-> "d", P |-> "b"]
 (* does the logged outcome `got` (a value, <<"E", class>> or for Type <<"T", tag>>) agree with v? *)
 ValueAgrees(got, v) ==
     IF IsErr(v) THEN IsErr(got)
+    ELSE IF v[1] = "!" THEN ~IsErr(got) /\ got[1] # "T" /\ Tag(got) = v[2]      \* some value of the type, not an error
     ELSE IF IsAny(v) THEN IsErr(got) \/ Tag(got) = v[2]
     ELSE got[1] = v[1] /\ got = v
 OutcomeAgrees0(mode, got, v) ==
@@ -555,7 +683,7 @@ OutcomeAgrees0(mode, got, v) ==
       [] mode = "T" ->
             (* Type of an expression that evaluates is the type of its value; for one that does  *)
             (* not, the documentation promises nothing about Type                                 *)
-            IsErr(v) \/ (IsAny(v) /\ IsErr(got)) \/ (got[1] = "T" /\ got = <<"T", Tag(v)>>)
+            IsErr(v) \/ (v[1] = "?" /\ IsErr(got)) \/ (got[1] = "T" /\ got = <<"T", Tag(v)>>)
       [] OTHER ->
             IF ~IsErr(v) /\ Tag(v) # ModeTag[mode] THEN IsErr(got) ELSE ValueAgrees(got, v)
 (* ill = the expression does not type-check strictly under this scope (TypeStrict = "err") *)
